@@ -12,6 +12,7 @@ import Kskm.Chain
 import KskmGen.Tables
 import KskmProofs.C05
 import KskmProofs.Lemmas.C16Validate
+import KskmProofs.Lemmas.C16Conforms
 import KskmProofs.Lemmas.C16Flags
 namespace Kskm.C16
 open Kskm Kskm.Config
@@ -19,7 +20,14 @@ open Kskm Kskm.Config
 /-- the environment of the real loader: regenerated schema and algorithm tables; only the file
     system stays a parameter -/
 def realEnv (fileExists : String → Bool) : Env :=
-  { tbl := KskmGen.configSchema, algNames := KskmGen.algorithmDNSSEC, fileExists := fileExists }
+  { tbl := KskmGen.configSchema, algNames := KskmGen.algorithmDNSSEC, fileExists := fileExists,
+    kskTtlFallback := KskmGen.dnsTtlFallback.map CVal.int }
+
+/-- did the loader return a configuration? -/
+def loads (r : Res CVal) : Bool :=
+  match r with
+  | .ok _ => true
+  | .error _ => false
 
 /-! ## 1. Fail-closed: unknown options -/
 
@@ -33,7 +41,7 @@ theorem every_object_closed : ∀ s ∈ KskmGen.configSchema, s.additionalProper
     transformed tree has a key the object does not declare, the loader does not return a
     configuration. -/
 theorem unknown_option_rejected (fe : String → Bool) (c : CVal) (kvs : List (CVal × CVal))
-    (ht : transformConfig c = .ok kvs)
+    (ht : transformConfig (realEnv fe).kskTtlFallback c = .ok kvs)
     (hu : HasUnknownOption KskmGen.configSchema (.model "KSKMConfig") (.map kvs)) :
     ∀ r, fromDict (realEnv fe) c ≠ .ok r := by
   intro r h
@@ -50,7 +58,7 @@ theorem unknown_option_rejected (fe : String → Bool) (c : CVal) (kvs : List (C
 /-- …and what it is rejected with is the schema-validation error, unless an exception escaped first
     or the model declines (never a configuration, never the ConfigurationError class). -/
 theorem unknown_option_outcome (fe : String → Bool) (c : CVal) (kvs : List (CVal × CVal))
-    (ht : transformConfig c = .ok kvs)
+    (ht : transformConfig (realEnv fe).kskTtlFallback c = .ok kvs)
     (hu : HasUnknownOption KskmGen.configSchema (.model "KSKMConfig") (.map kvs)) :
     fromDict (realEnv fe) c = err .validation ∨
     (∃ e, validate (realEnv fe) validateFuel false (.model "KSKMConfig") (.map kvs) = .error e ∧
@@ -72,20 +80,803 @@ theorem unknown_section_rejected (fe : String → Bool) (kvs : List (CVal × CVa
                   "filenames", "schemas"]) :
     ∀ r, fromDict (realEnv fe) (.map kvs) ≠ .ok r := by
   intro r h
-  cases ht : transformConfig (.map kvs) with
+  cases ht : transformConfig (realEnv fe).kskTtlFallback (.map kvs) with
   | error e => simp [fromDict, ht, bind, Except.bind] at h
   | ok kvs' =>
-    have hmem : (CVal.str k, x) ∈ kvs' := transform_keeps_other_keys kvs kvs' k x ht hk (by
+    have hmem : (CVal.str k, x) ∈ kvs' := transform_keeps_other_keys _ kvs kvs' k x ht hk (by
       simp only [List.mem_cons, List.not_mem_nil, or_false, not_or] at hname ⊢
       exact ⟨hname.2.2.2.1, hname.2.1, hname.2.2.2.2.1, hname.2.2.1⟩)
     refine unknown_option_rejected fe _ kvs' ht ?_ r h
-    refine HasUnknownOption.here (s := ?_) (by decide) hmem ?_
-    intro f hf heq
-    simp only [List.mem_cons, List.not_mem_nil, or_false, not_or] at hname
-    have : f.name = k := by injection heq with h'; exact h'.symm
-    subst this
-    revert hf
-    simp only [List.mem_cons, List.not_mem_nil, or_false]
-    rintro (rfl | rfl | rfl | rfl | rfl | rfl | rfl) <;> simp_all
+    obtain ⟨s, hs, hund⟩ := undeclared_of_fieldNames KskmGen.configSchema "KSKMConfig"
+      ["hsm", "ksk_keys", "ksk_policy", "request_policy", "response_policy", "filenames", "schemas"] k
+      (by decide) (by
+        simp only [List.mem_cons, List.not_mem_nil, or_false, not_or] at hname ⊢
+        exact ⟨hname.1, hname.2.2.1, hname.2.2.2.1, hname.2.2.2.2.1, hname.2.2.2.2.2.1,
+               hname.2.2.2.2.2.2.1, hname.2.2.2.2.2.2.2⟩)
+    exact HasUnknownOption.here hs hmem hund
+
+/-- the exemption is real: an arbitrary key inside an HSM's `env` map IS accepted (and a
+    non-trivial tree meets the hypotheses of the theorems above: this one loads) -/
+example : loads (fromDict (realEnv fun _ => false)
+    (.map [(.str "hsm", .map [(.str "softhsm", .map [(.str "module", .str "libsofthsm2.so"),
+      (.str "env", .map [(.str "ANY_NAME_AT_ALL", .list [.int 1, .null])])])])])) = true := by
+  decide +kernel
+
+/-- …while the same key one level up, in the hsm entry itself, is an unknown option -/
+example : HasUnknownOption KskmGen.configSchema (.model "KSKMConfig")
+    (.map [(.str "hsm", .map [(.str "softhsm", .map [(.str "module", .str "libsofthsm2.so"),
+      (.str "ANY_NAME_AT_ALL", .int 1)])])]) := by
+  obtain ⟨s, hs, hund⟩ := undeclared_of_fieldNames KskmGen.configSchema "KSKMHSM"
+    ["module", "pin", "so_pin", "env"] "ANY_NAME_AT_ALL" (by decide) (by decide)
+  obtain ⟨t, ht, hf⟩ : ∃ t, findSchema KskmGen.configSchema "KSKMConfig" = some t ∧
+      ∃ f ∈ t.fields, f.name = "hsm" ∧ f.ty = .mapOf false (.model "KSKMHSM") ∧ f.strToList = false := by
+    refine ⟨_, rfl, ?_⟩
+    decide
+  obtain ⟨f, hfm, hn, hty, hsl⟩ := hf
+  refine HasUnknownOption.field ht hfm (x := .map [(.str "softhsm", _)]) (by rw [hn]; rfl) ?_
+  rw [hty]
+  simp only [applyStrToList, hsl]
+  refine HasUnknownOption.entry (kv := (.str "softhsm", _)) List.mem_cons_self ?_
+  exact HasUnknownOption.here hs (List.mem_cons_of_mem _ List.mem_cons_self) hund
+
+/-! ## 2. Documented constraints -/
+
+theorem fromDict_validated (env : Env) (c loaded : CVal) (h : fromDict env c = .ok loaded) :
+    ∃ kvs, transformConfig env.kskTtlFallback c = .ok kvs ∧
+      validate env validateFuel false (.model "KSKMConfig") (.map kvs) = .ok (some loaded) ∧
+      positivityChecks loaded = .ok () := by
+  unfold fromDict at h
+  cases ht : transformConfig env.kskTtlFallback c with
+  | error e => simp [ht, bind, Except.bind] at h
+  | ok kvs =>
+    refine ⟨kvs, rfl, ?_⟩
+    simp only [ht, bind, Except.bind] at h
+    cases hv : validate env validateFuel false (.model "KSKMConfig") (.map kvs) with
+    | error e => simp [hv] at h
+    | ok o =>
+      cases o with
+      | none => simp [hv, err] at h
+      | some l =>
+        simp only [hv] at h
+        cases hp : positivityChecks l with
+        | error e => simp [hp] at h
+        | ok u =>
+          simp only [hp, pure, Except.pure, Except.ok.injEq] at h
+          subst h
+          exact ⟨rfl, hp⟩
+
+/-- **constraint_positive_counts.**  A loaded configuration has `signature_horizon_days ≥ 1`,
+    `num_bundles ≥ 1` and `num_different_keys_in_all_bundles ≥ 1` — for every value tree. -/
+theorem constraint_positive_counts (env : Env) (c loaded : CVal) (h : fromDict env c = .ok loaded) :
+    ∃ hz n k, intAt loaded "request_policy" "signature_horizon_days" = some hz ∧
+      intAt loaded "request_policy" "num_bundles" = some n ∧
+      intAt loaded "request_policy" "num_different_keys_in_all_bundles" = some k ∧
+      1 ≤ hz ∧ 1 ≤ n ∧ 1 ≤ k := by
+  obtain ⟨kvs, _, _, hp⟩ := fromDict_validated env c loaded h
+  unfold positivityChecks at hp
+  split at hp
+  · rename_i hz n k h1 h2 h3
+    refine ⟨hz, n, k, h1, h2, h3, ?_⟩
+    split at hp
+    · simp [err] at hp
+    · split at hp
+      · simp [err] at hp
+      · split at hp
+        · simp [err] at hp
+        · omega
+  · simp [unsupported] at hp
+
+/-- …and a schema-valid tree with a non-positive count is refused with the dedicated
+    *configuration* error (not a validation error, not acceptance). -/
+theorem constraint_nonpositive_is_configuration_error (env : Env) (c : CVal) (kvs : List (CVal × CVal))
+    (loaded : CVal) (hz n k : Int)
+    (ht : transformConfig (realEnv fe).kskTtlFallback c = .ok kvs)
+    (hv : validate env validateFuel false (.model "KSKMConfig") (.map kvs) = .ok (some loaded))
+    (h1 : intAt loaded "request_policy" "signature_horizon_days" = some hz)
+    (h2 : intAt loaded "request_policy" "num_bundles" = some n)
+    (h3 : intAt loaded "request_policy" "num_different_keys_in_all_bundles" = some k)
+    (hbad : hz < 1 ∨ n < 1 ∨ k < 1) :
+    fromDict env c = err .configuration := by
+  unfold fromDict
+  simp only [ht, hv, bind, Except.bind, positivityChecks, h1, h2, h3]
+  by_cases c1 : hz < 1
+  · simp [c1, err]
+  · by_cases c2 : n < 1
+    · simp [c1, c2, err]
+    · have c3 : k < 1 := by omega
+      simp [c1, c2, c3, err]
+
+theorem names_nodup : ∀ s ∈ KskmGen.configSchema, s.fieldNames.Nodup := by decide
+
+theorem loaded_conforms (fe : String → Bool) (c loaded : CVal) (h : fromDict (realEnv fe) c = .ok loaded) :
+    Conforms (realEnv fe) validateFuel (.model "KSKMConfig") loaded := by
+  obtain ⟨kvs, _, hv, _⟩ := fromDict_validated _ c loaded h
+  exact validate_sound _ _ _ _ _ _ hv
+
+theorem fieldTy_of (tbl : List ObjSchema) (name fname : String) (s : ObjSchema) (f : Field)
+    (hs : findSchema tbl name = some s) (hf : s.field? fname = some f) :
+    schemaFieldTy tbl name fname = some f.ty ∧ schemaDefault tbl name fname = f.default := by
+  simp [schemaFieldTy, schemaDefault, hs, hf]
+
+/-- Where the value of `section.option` of a loaded configuration comes from: the default of the
+    whole section, the default of the option, or a validated instance of the option's schema type. -/
+theorem section_option (fe : String → Bool) (c loaded sv v : CVal) (sect model fname : String)
+    (h : fromDict (realEnv fe) c = .ok loaded)
+    (hsty : schemaFieldTy KskmGen.configSchema "KSKMConfig" sect = some (.model model))
+    (hg1 : loaded.get? sect = some sv) (hg2 : sv.get? fname = some v) :
+    (schemaDefault KskmGen.configSchema "KSKMConfig" sect = some sv) ∨
+    (schemaDefault KskmGen.configSchema model fname = some v) ∨
+    (∃ ty, schemaFieldTy KskmGen.configSchema model fname = some ty ∧ Conforms (realEnv fe) 6 ty v) := by
+  have hc := loaded_conforms fe c loaded h
+  obtain ⟨s, f, hs, hf, hor⟩ := loaded_option (realEnv fe) names_nodup 7 "KSKMConfig" sect loaded sv hc hg1
+  obtain ⟨e1, e2⟩ := fieldTy_of _ _ _ _ _ hs hf
+  rcases hor with hd | hcs
+  · left; exact e2.trans hd
+  · right
+    have hty : f.ty = .model model := by
+      have : some f.ty = some (STy.model model) := by rw [← e1]; exact hsty
+      injection this
+    rw [hty] at hcs
+    obtain ⟨s2, f2, hs2, hf2, hor2⟩ := loaded_option (realEnv fe) names_nodup 6 model fname sv v hcs hg2
+    obtain ⟨e3, e4⟩ := fieldTy_of _ _ _ _ _ hs2 hf2
+    rcases hor2 with hd | hcs2
+    · left; exact e4.trans hd
+    · right; exact ⟨f2.ty, e3, hcs2⟩
+
+/-- an integer option of a section lies within its regenerated bounds, whichever way it was loaded -/
+theorem section_int_option (fe : String → Bool) (c loaded sv v : CVal) (sect model fname : String)
+    (ge le gt : Option Int) (d0 d1 : Int)
+    (h : fromDict (realEnv fe) c = .ok loaded)
+    (hsty : schemaFieldTy KskmGen.configSchema "KSKMConfig" sect = some (.model model))
+    (hfty : schemaFieldTy KskmGen.configSchema model fname = some (.scalar [.int ge le gt]))
+    (hsdef : ((schemaDefault KskmGen.configSchema "KSKMConfig" sect).bind (·.get? fname)).bind CVal.getInt? = some d0)
+    (hfdef : (schemaDefault KskmGen.configSchema model fname).bind CVal.getInt? = some d1)
+    (hb0 : inBounds ge le gt d0 = true) (hb1 : inBounds ge le gt d1 = true)
+    (hg1 : loaded.get? sect = some sv) (hg2 : sv.get? fname = some v) :
+    ∃ i, v = .int i ∧ inBounds ge le gt i = true := by
+  rcases section_option fe c loaded sv v sect model fname h hsty hg1 hg2 with hd | hd | ⟨ty, hty, hcs⟩
+  · rw [hd] at hsdef
+    simp only [Option.bind_some, hg2] at hsdef
+    exact ⟨d0, getInt?_some v d0 hsdef, hb0⟩
+  · rw [hd] at hfdef
+    simp only [Option.bind_some] at hfdef
+    exact ⟨d1, getInt?_some v d1 hfdef, hb1⟩
+  · rw [hfty] at hty
+    injection hty with hty
+    subst hty
+    obtain ⟨a, ha, hok⟩ := conforms_scalar _ 5 _ v hcs
+    simp only [List.mem_cons, List.not_mem_nil, or_false] at ha
+    subst ha
+    exact hok
+
+/-- **constraint_ttl_nonnegative.**  Neither TTL of a loaded configuration is negative. -/
+theorem constraint_ttl_nonnegative (fe : String → Bool) (c loaded : CVal)
+    (h : fromDict (realEnv fe) c = .ok loaded) :
+    (∀ sv v, loaded.get? "request_policy" = some sv → sv.get? "dns_ttl" = some v → ∃ i, v = .int i ∧ 0 ≤ i) ∧
+    (∀ sv v, loaded.get? "ksk_policy" = some sv → sv.get? "ttl" = some v → ∃ i, v = .int i ∧ 0 ≤ i) := by
+  constructor
+  · intro sv v hg1 hg2
+    obtain ⟨i, hi, hb⟩ := section_int_option fe c loaded sv v "request_policy" "RequestPolicy" "dns_ttl"
+      (some 0) none none 0 0 h (by decide) (by decide) (by decide) (by decide) (by decide) (by decide) hg1 hg2
+    exact ⟨i, hi, by simpa [inBounds] using hb⟩
+  · intro sv v hg1 hg2
+    obtain ⟨i, hi, hb⟩ := section_int_option fe c loaded sv v "ksk_policy" "KSKPolicy" "ttl"
+      (some 0) none none 172800 172800 h (by decide) (by decide) (by decide) (by decide) (by decide) (by decide) hg1 hg2
+    exact ⟨i, hi, by simpa [inBounds] using hb⟩
+
+/-- the SKR-side bundle count is positive (`PositiveInt`) -/
+theorem constraint_response_num_bundles (fe : String → Bool) (c loaded : CVal)
+    (h : fromDict (realEnv fe) c = .ok loaded) :
+    ∀ sv v, loaded.get? "response_policy" = some sv → sv.get? "num_bundles" = some v → ∃ i, v = .int i ∧ 0 < i := by
+  intro sv v hg1 hg2
+  obtain ⟨i, hi, hb⟩ := section_int_option fe c loaded sv v "response_policy" "ResponsePolicy" "num_bundles"
+    none none (some 0) 9 9 h (by decide) (by decide) (by decide) (by decide) (by decide) (by decide) hg1 hg2
+  exact ⟨i, hi, by simpa [inBounds] using hb⟩
+
+/-- Where the value of an option of a key definition (`keys.<name>.<option>`) comes from. -/
+theorem key_option (fe : String → Bool) (c loaded ks kname key v : CVal) (keys : List (CVal × CVal))
+    (fname : String) (h : fromDict (realEnv fe) c = .ok loaded)
+    (hg : loaded.get? "ksk_keys" = some ks) (hks : ks = .map keys) (hk : (kname, key) ∈ keys)
+    (hg2 : key.get? fname = some v) :
+    (schemaDefault KskmGen.configSchema "KSKKey" fname = some v) ∨
+    (∃ ty, schemaFieldTy KskmGen.configSchema "KSKKey" fname = some ty ∧ Conforms (realEnv fe) 5 ty v) := by
+  have hc := loaded_conforms fe c loaded h
+  obtain ⟨s, f, hs, hf, hor⟩ := loaded_option (realEnv fe) names_nodup 7 "KSKMConfig" "ksk_keys" loaded ks hc hg
+  obtain ⟨e1, e2⟩ := fieldTy_of _ _ _ _ _ hs hf
+  have hd0 : ((schemaDefault KskmGen.configSchema "KSKMConfig" "ksk_keys").bind CVal.getMap?).map List.isEmpty
+      = some true := by decide
+  have ht0 : schemaFieldTy KskmGen.configSchema "KSKMConfig" "ksk_keys" = some (.mapOf false (.model "KSKKey")) := by decide
+  rcases hor with hd | hcs
+  · -- the whole `keys` section defaulted: it is empty
+    have : schemaDefault KskmGen.configSchema "KSKMConfig" "ksk_keys" = some ks := e2.trans hd
+    rw [this, hks] at hd0
+    simp only [Option.bind_some, CVal.getMap?, Option.map_some, Option.some.injEq, List.isEmpty_iff] at hd0
+    subst hd0
+    cases hk
+  · have hty : f.ty = .mapOf false (.model "KSKKey") := by
+      have : some f.ty = some (STy.mapOf false (.model "KSKKey")) := by rw [← ht0]; exact e1.symm
+      injection this
+    rw [hty] at hcs
+    obtain ⟨out, hout, hall⟩ := conforms_mapOf _ 6 _ _ ks hcs
+    rw [hks] at hout
+    injection hout with hout
+    subst hout
+    have hkey := hall _ hk
+    obtain ⟨s2, f2, hs2, hf2, hor2⟩ := loaded_option (realEnv fe) names_nodup 5 "KSKKey" fname key v hkey hg2
+    obtain ⟨e3, e4⟩ := fieldTy_of _ _ _ _ _ hs2 hf2
+    rcases hor2 with hd | hcs2
+    · left; exact e4.trans hd
+    · right; exact ⟨f2.ty, e3, hcs2⟩
+
+/-- an optional bounded integer of a key definition is absent (`null`) or within its bounds -/
+theorem key_nullable_int (fe : String → Bool) (c loaded ks kname key v : CVal) (keys : List (CVal × CVal))
+    (fname : String) (ge le gt : Option Int) (h : fromDict (realEnv fe) c = .ok loaded)
+    (hfty : schemaFieldTy KskmGen.configSchema "KSKKey" fname = some (.scalar [.int ge le gt, .null]))
+    (hfdef : (schemaDefault KskmGen.configSchema "KSKKey" fname).map CVal.isNull = some true)
+    (hg : loaded.get? "ksk_keys" = some ks) (hks : ks = .map keys) (hk : (kname, key) ∈ keys)
+    (hg2 : key.get? fname = some v) :
+    v = .null ∨ ∃ i, v = .int i ∧ inBounds ge le gt i = true := by
+  rcases key_option fe c loaded ks kname key v keys fname h hg hks hk hg2 with hd | ⟨ty, hty, hcs⟩
+  · rw [hd] at hfdef
+    left
+    cases v <;> simp [CVal.isNull] at hfdef ⊢
+  · rw [hfty] at hty
+    injection hty with hty
+    subst hty
+    obtain ⟨a, ha, hok⟩ := conforms_scalar _ 4 _ v hcs
+    simp only [List.mem_cons, List.not_mem_nil, or_false] at ha
+    rcases ha with rfl | rfl
+    · right; exact hok
+    · left; exact hok
+
+/-- **constraint_key_tag.**  A configured key tag is absent or within 1..65535. -/
+theorem constraint_key_tag (fe : String → Bool) (c loaded ks kname key v : CVal) (keys : List (CVal × CVal))
+    (h : fromDict (realEnv fe) c = .ok loaded)
+    (hg : loaded.get? "ksk_keys" = some ks) (hks : ks = .map keys) (hk : (kname, key) ∈ keys)
+    (hg2 : key.get? "key_tag" = some v) :
+    v = .null ∨ ∃ i, v = .int i ∧ 1 ≤ i ∧ i ≤ 65535 := by
+  rcases key_nullable_int fe c loaded ks kname key v keys "key_tag" (some 1) (some 65535) none h
+    (by decide) (by decide) hg hks hk hg2 with hn | ⟨i, hi, hb⟩
+  · left; exact hn
+  · right; exact ⟨i, hi, by simpa [inBounds] using hb⟩
+
+/-- **constraint_rsa_size** (key definitions): absent or within 1..65535;
+    `rsa_exponent`: absent or positive. -/
+theorem constraint_key_rsa (fe : String → Bool) (c loaded ks kname key : CVal) (keys : List (CVal × CVal))
+    (h : fromDict (realEnv fe) c = .ok loaded)
+    (hg : loaded.get? "ksk_keys" = some ks) (hks : ks = .map keys) (hk : (kname, key) ∈ keys) :
+    (∀ v, key.get? "rsa_size" = some v → v = .null ∨ ∃ i, v = .int i ∧ 1 ≤ i ∧ i ≤ 65535) ∧
+    (∀ v, key.get? "rsa_exponent" = some v → v = .null ∨ ∃ i, v = .int i ∧ 0 < i) := by
+  constructor
+  · intro v hg2
+    rcases key_nullable_int fe c loaded ks kname key v keys "rsa_size" (some 1) (some 65535) none h
+      (by decide) (by decide) hg hks hk hg2 with hn | ⟨i, hi, hb⟩
+    · left; exact hn
+    · right; exact ⟨i, hi, by simpa [inBounds] using hb⟩
+  · intro v hg2
+    rcases key_nullable_int fe c loaded ks kname key v keys "rsa_exponent" none none (some 0) h
+      (by decide) (by decide) hg hks hk hg2 with hn | ⟨i, hi, hb⟩
+    · left; exact hn
+    · right; exact ⟨i, hi, by simpa [inBounds] using hb⟩
+
+/-- the characters `^[\w_]+$`, `^[\w\.]+$`, `^[0-9a-fA-F]+$` admit (ASCII; a non-ASCII character
+    makes the model decline, so an accepted string here is pure ASCII) -/
+def IsKeyName (s : String) : Prop := s.toList ≠ [] ∧ ∀ ch ∈ s.toList, isAsciiWord ch = true
+def IsDomainName (s : String) : Prop := s.toList ≠ [] ∧ ∀ ch ∈ s.toList, (isAsciiWord ch || ch == '.') = true
+def IsHexDigest (s : String) : Prop := s.toList ≠ [] ∧ ∀ ch ∈ s.toList, isHexDigit ch = true
+
+theorem matchPattern_keyName (s : String) (h : matchPattern patKeyName s = .ok true) : IsKeyName s := by
+  have h' : matchClassPlus isAsciiWord true s.toList = .ok true := by
+    simpa [matchPattern, patKeyName, patDomain, patHex] using h
+  obtain ⟨h1, h2⟩ := matchClassPlus_true _ _ _ h'
+  exact ⟨h1, fun ch hch => (h2 ch hch).2⟩
+
+theorem matchPattern_domain (s : String) (h : matchPattern patDomain s = .ok true) : IsDomainName s := by
+  have h' : matchClassPlus (fun c => isAsciiWord c || c == '.') true s.toList = .ok true := by
+    simpa [matchPattern, patKeyName, patDomain, patHex] using h
+  obtain ⟨h1, h2⟩ := matchClassPlus_true _ _ _ h'
+  exact ⟨h1, fun ch hch => (h2 ch hch).2⟩
+
+theorem matchPattern_hex (s : String) (h : matchPattern patHex s = .ok true) : IsHexDigest s := by
+  have h' : matchClassPlus isHexDigit false s.toList = .ok true := by
+    simpa [matchPattern, patKeyName, patDomain, patHex] using h
+  obtain ⟨h1, h2⟩ := matchClassPlus_true _ _ _ h'
+  exact ⟨h1, fun ch hch => (h2 ch hch).2⟩
+
+/-- the three pattern literals the matchers were written from are the ones in the code now
+    (`StringConstraints(pattern=…)` literals by `ast`), and no other pattern occurs in the schema -/
+theorem patterns_pinned :
+    List.lookup "src/kskm/common/config_misc.py:StringConstraints#1" KskmGen.regexLiterals = some patDomain ∧
+    List.lookup "src/kskm/common/config_misc.py:StringConstraints#2" KskmGen.regexLiterals = some patHex ∧
+    List.lookup "src/kskm/common/config_misc.py:StringConstraints#3" KskmGen.regexLiterals = some patKeyName ∧
+    schemaFieldTy KskmGen.configSchema "KSKKey" "label" = some (.scalar [.str (some patKeyName)]) ∧
+    schemaFieldTy KskmGen.configSchema "KSKKey" "ds_sha256" = some (.scalar [.str (some patHex), .null]) ∧
+    schemaFieldTy KskmGen.configSchema "KSKPolicy" "signers_name" = some (.scalar [.str (some patDomain)]) ∧
+    schemaFieldTy KskmGen.configSchema "RequestPolicy" "acceptable_domains" =
+      some (.list (.scalar [.str (some patDomain)])) ∧
+    schemaFieldTy KskmGen.configSchema "SchemaAction" "publish" = some (.list (.scalar [.str (some patKeyName)])) ∧
+    schemaFieldTy KskmGen.configSchema "SchemaAction" "sign" = some (.list (.scalar [.str (some patKeyName)])) ∧
+    schemaFieldTy KskmGen.configSchema "SchemaAction" "revoke" = some (.list (.scalar [.str (some patKeyName)])) := by
+  decide
+
+/-- Python's `$` would also match before a trailing newline; pydantic-core matches with the Rust
+    `regex` crate, where it does not: `"abc\n"` is NOT a label / domain / digest
+    (established on the implementation by harness/corr_C16.py, stream `example`, `strmod:nl`). -/
+theorem trailing_newline_refused :
+    matchPattern patKeyName "abc\n" = .ok false ∧ matchPattern patDomain "abc\n" = .ok false ∧
+    matchPattern patHex "abc\n" = .ok false := by decide
+
+/-- **constraint_label / constraint_digest / constraint_algorithm.**  In a loaded configuration
+    every key's label is a key name, its digest (when given) is hexadecimal, and its algorithm is the
+    number of a member NAME of `AlgorithmDNSSEC`. -/
+theorem constraint_key_strings (fe : String → Bool) (c loaded ks kname key : CVal) (keys : List (CVal × CVal))
+    (h : fromDict (realEnv fe) c = .ok loaded)
+    (hg : loaded.get? "ksk_keys" = some ks) (hks : ks = .map keys) (hk : (kname, key) ∈ keys) :
+    (∀ v, key.get? "label" = some v → ∃ s, v = .str s ∧ IsKeyName s) ∧
+    (∀ v, key.get? "ds_sha256" = some v → v = .null ∨ ∃ s, v = .str s ∧ IsHexDigest s) ∧
+    (∀ v, key.get? "algorithm" = some v →
+      ∃ name n, v = .int (Int.ofNat n) ∧ List.lookup name KskmGen.algorithmDNSSEC = some n) := by
+  refine ⟨?_, ?_, ?_⟩
+  · intro v hg2
+    rcases key_option fe c loaded ks kname key v keys "label" h hg hks hk hg2 with hd | ⟨ty, hty, hcs⟩
+    · have : (schemaDefault KskmGen.configSchema "KSKKey" "label").isNone = true := by decide
+      rw [hd] at this; cases this
+    · rw [patterns_pinned.2.2.2.1] at hty
+      injection hty with hty; subst hty
+      obtain ⟨a, ha, hok⟩ := conforms_scalar _ 4 _ v hcs
+      simp only [List.mem_cons, List.not_mem_nil, or_false] at ha
+      subst ha
+      obtain ⟨s, hs, hp⟩ := hok
+      exact ⟨s, hs, matchPattern_keyName s (hp _ rfl)⟩
+  · intro v hg2
+    rcases key_option fe c loaded ks kname key v keys "ds_sha256" h hg hks hk hg2 with hd | ⟨ty, hty, hcs⟩
+    · have : (schemaDefault KskmGen.configSchema "KSKKey" "ds_sha256").map CVal.isNull = some true := by decide
+      rw [hd] at this
+      left
+      cases v <;> simp [CVal.isNull] at this ⊢
+    · rw [patterns_pinned.2.2.2.2.1] at hty
+      injection hty with hty; subst hty
+      obtain ⟨a, ha, hok⟩ := conforms_scalar _ 4 _ v hcs
+      simp only [List.mem_cons, List.not_mem_nil, or_false] at ha
+      rcases ha with rfl | rfl
+      · obtain ⟨s, hs, hp⟩ := hok
+        right; exact ⟨s, hs, matchPattern_hex s (hp _ rfl)⟩
+      · left; exact hok
+  · intro v hg2
+    rcases key_option fe c loaded ks kname key v keys "algorithm" h hg hks hk hg2 with hd | ⟨ty, hty, hcs⟩
+    · have : (schemaDefault KskmGen.configSchema "KSKKey" "algorithm").isNone = true := by decide
+      rw [hd] at this; cases this
+    · have hfty : schemaFieldTy KskmGen.configSchema "KSKKey" "algorithm" = some (.scalar [.algByName]) := by decide
+      rw [hfty] at hty
+      injection hty with hty; subst hty
+      obtain ⟨a, ha, hok⟩ := conforms_scalar _ 4 _ v hcs
+      simp only [List.mem_cons, List.not_mem_nil, or_false] at ha
+      subst ha
+      exact hok
+
+/-- a list-of-bounded-integers option of `request_policy`: every element within the bounds -/
+theorem request_intlist_option (fe : String → Bool) (c loaded sv v : CVal) (fname : String)
+    (ge le gt : Option Int) (d0 d1 : List Int)
+    (h : fromDict (realEnv fe) c = .ok loaded)
+    (hfty : schemaFieldTy KskmGen.configSchema "RequestPolicy" fname = some (.list (.scalar [.int ge le gt])))
+    (hsdef : ((schemaDefault KskmGen.configSchema "KSKMConfig" "request_policy").bind (·.get? fname)).bind
+        CVal.getIntList? = some d0)
+    (hfdef : (schemaDefault KskmGen.configSchema "RequestPolicy" fname).bind CVal.getIntList? = some d1)
+    (hb0 : d0.all (inBounds ge le gt) = true) (hb1 : d1.all (inBounds ge le gt) = true)
+    (hg1 : loaded.get? "request_policy" = some sv) (hg2 : sv.get? fname = some v) :
+    ∃ xs, v = .list xs ∧ ∀ x ∈ xs, ∃ i, x = .int i ∧ inBounds ge le gt i = true := by
+  have fromInts : ∀ (d : List Int), d.all (inBounds ge le gt) = true → v.getIntList? = some d →
+      ∃ xs, v = .list xs ∧ ∀ x ∈ xs, ∃ i, x = .int i ∧ inBounds ge le gt i = true := by
+    intro d hb hv
+    refine ⟨d.map CVal.int, getIntList?_some v d hv, ?_⟩
+    intro x hx
+    obtain ⟨i, hi, rfl⟩ := List.mem_map.mp hx
+    exact ⟨i, rfl, List.all_eq_true.mp hb i hi⟩
+  rcases section_option fe c loaded sv v "request_policy" "RequestPolicy" fname h (by decide) hg1 hg2
+    with hd | hd | ⟨ty, hty, hcs⟩
+  · rw [hd] at hsdef
+    simp only [Option.bind_some, hg2] at hsdef
+    exact fromInts d0 hb0 hsdef
+  · rw [hd] at hfdef
+    simp only [Option.bind_some] at hfdef
+    exact fromInts d1 hb1 hfdef
+  · rw [hfty] at hty
+    injection hty with hty
+    subst hty
+    obtain ⟨xs, hxs, hall⟩ := conforms_list _ 5 _ v hcs
+    refine ⟨xs, hxs, ?_⟩
+    intro x hx
+    obtain ⟨a, ha, hok⟩ := conforms_scalar _ 4 _ x (hall x hx)
+    simp only [List.mem_cons, List.not_mem_nil, or_false] at ha
+    subst ha
+    exact hok
+
+/-- **constraint_rsa_sizes** (operator policy): every approved RSA size is within 1..65535, every
+    approved exponent and every per-bundle key count is positive. -/
+theorem constraint_request_int_lists (fe : String → Bool) (c loaded sv : CVal)
+    (h : fromDict (realEnv fe) c = .ok loaded) (hg1 : loaded.get? "request_policy" = some sv) :
+    (∀ v, sv.get? "rsa_approved_key_sizes" = some v →
+      ∃ xs, v = .list xs ∧ ∀ x ∈ xs, ∃ i, x = .int i ∧ 1 ≤ i ∧ i ≤ 65535) ∧
+    (∀ v, sv.get? "rsa_approved_exponents" = some v → ∃ xs, v = .list xs ∧ ∀ x ∈ xs, ∃ i, x = .int i ∧ 0 < i) ∧
+    (∀ v, sv.get? "num_keys_per_bundle" = some v → ∃ xs, v = .list xs ∧ ∀ x ∈ xs, ∃ i, x = .int i ∧ 0 < i) := by
+  refine ⟨?_, ?_, ?_⟩
+  · intro v hg2
+    obtain ⟨xs, hxs, hall⟩ := request_intlist_option fe c loaded sv v "rsa_approved_key_sizes" (some 1) (some 65535)
+      none [2048] [2048] h (by decide) (by decide) (by decide) (by decide) (by decide) hg1 hg2
+    refine ⟨xs, hxs, fun x hx => ?_⟩
+    obtain ⟨i, hi, hb⟩ := hall x hx
+    exact ⟨i, hi, by simpa [inBounds] using hb⟩
+  · intro v hg2
+    obtain ⟨xs, hxs, hall⟩ := request_intlist_option fe c loaded sv v "rsa_approved_exponents" none none
+      (some 0) [65537] [65537] h (by decide) (by decide) (by decide) (by decide) (by decide) hg1 hg2
+    refine ⟨xs, hxs, fun x hx => ?_⟩
+    obtain ⟨i, hi, hb⟩ := hall x hx
+    exact ⟨i, hi, by simpa [inBounds] using hb⟩
+  · intro v hg2
+    obtain ⟨xs, hxs, hall⟩ := request_intlist_option fe c loaded sv v "num_keys_per_bundle" none none
+      (some 0) [2, 1, 1, 1, 1, 1, 1, 1, 2] [2, 1, 1, 1, 1, 1, 1, 1, 2] h (by decide) (by decide) (by decide)
+      (by decide) (by decide) hg1 hg2
+    refine ⟨xs, hxs, fun x hx => ?_⟩
+    obtain ⟨i, hi, hb⟩ := hall x hx
+    exact ⟨i, hi, by simpa [inBounds] using hb⟩
+
+theorem isDomainName_dot : IsDomainName "." := by
+  unfold IsDomainName; decide
+
+/-- **constraint_domains.**  Every acceptable domain and the signer's name of a loaded configuration
+    is a non-empty string over `[A-Za-z0-9_.]`. -/
+theorem constraint_domains (fe : String → Bool) (c loaded : CVal) (h : fromDict (realEnv fe) c = .ok loaded) :
+    (∀ sv v, loaded.get? "request_policy" = some sv → sv.get? "acceptable_domains" = some v →
+      ∃ xs, v = .list xs ∧ ∀ x ∈ xs, ∃ s, x = .str s ∧ IsDomainName s) ∧
+    (∀ sv v, loaded.get? "ksk_policy" = some sv → sv.get? "signers_name" = some v →
+      ∃ s, v = .str s ∧ IsDomainName s) := by
+  constructor
+  · intro sv v hg1 hg2
+    have fromDefault : v.getStrList? = some ["."] →
+        ∃ xs, v = .list xs ∧ ∀ x ∈ xs, ∃ s, x = .str s ∧ IsDomainName s := by
+      intro hv
+      refine ⟨[CVal.str "."], getStrList?_some v ["."] hv, ?_⟩
+      intro x hx
+      simp only [List.mem_cons, List.not_mem_nil, or_false] at hx
+      exact ⟨".", hx, isDomainName_dot⟩
+    rcases section_option fe c loaded sv v "request_policy" "RequestPolicy" "acceptable_domains" h (by decide) hg1 hg2
+      with hd | hd | ⟨ty, hty, hcs⟩
+    · have hsdef : ((schemaDefault KskmGen.configSchema "KSKMConfig" "request_policy").bind
+          (·.get? "acceptable_domains")).bind CVal.getStrList? = some ["."] := by decide
+      rw [hd] at hsdef
+      simp only [Option.bind_some, hg2] at hsdef
+      exact fromDefault hsdef
+    · have hfdef : (schemaDefault KskmGen.configSchema "RequestPolicy" "acceptable_domains").bind CVal.getStrList?
+          = some ["."] := by decide
+      rw [hd] at hfdef
+      simp only [Option.bind_some] at hfdef
+      exact fromDefault hfdef
+    · rw [patterns_pinned.2.2.2.2.2.2.1] at hty
+      injection hty with hty; subst hty
+      obtain ⟨xs, hxs, hall⟩ := conforms_list _ 5 _ v hcs
+      refine ⟨xs, hxs, fun x hx => ?_⟩
+      obtain ⟨a, ha, hok⟩ := conforms_scalar _ 4 _ x (hall x hx)
+      simp only [List.mem_cons, List.not_mem_nil, or_false] at ha
+      subst ha
+      obtain ⟨s, hs, hp⟩ := hok
+      exact ⟨s, hs, matchPattern_domain s (hp _ rfl)⟩
+  · intro sv v hg1 hg2
+    have fromDefault : v.getStr? = some "." → ∃ s, v = .str s ∧ IsDomainName s := by
+      intro hv
+      cases v <;> simp [CVal.getStr?] at hv
+      subst hv
+      exact ⟨".", rfl, isDomainName_dot⟩
+    rcases section_option fe c loaded sv v "ksk_policy" "KSKPolicy" "signers_name" h (by decide) hg1 hg2
+      with hd | hd | ⟨ty, hty, hcs⟩
+    · have hsdef : ((schemaDefault KskmGen.configSchema "KSKMConfig" "ksk_policy").bind
+          (·.get? "signers_name")).bind CVal.getStr? = some "." := by decide
+      rw [hd] at hsdef
+      simp only [Option.bind_some, hg2] at hsdef
+      exact fromDefault hsdef
+    · have hfdef : (schemaDefault KskmGen.configSchema "KSKPolicy" "signers_name").bind CVal.getStr? = some "." := by
+        decide
+      rw [hd] at hfdef
+      simp only [Option.bind_some] at hfdef
+      exact fromDefault hfdef
+    · rw [patterns_pinned.2.2.2.2.2.1] at hty
+      injection hty with hty; subst hty
+      obtain ⟨a, ha, hok⟩ := conforms_scalar _ 5 _ v hcs
+      simp only [List.mem_cons, List.not_mem_nil, or_false] at ha
+      subst ha
+      obtain ⟨s, hs, hp⟩ := hok
+      exact ⟨s, hs, matchPattern_domain s (hp _ rfl)⟩
+
+/-! ### unparsable durations -/
+
+theorem mapDurations_ok (l out : List (CVal × CVal)) (h : mapDurations l = .ok out) :
+    ∀ kv ∈ l, ∃ d, durationToTimedelta kv.2 = .ok d := by
+  induction l generalizing out with
+  | nil => intro kv hkv; cases hkv
+  | cons p r ih =>
+    obtain ⟨k, v⟩ := p
+    unfold mapDurations at h
+    cases hd : durationToTimedelta v with
+    | error e => simp [hd, bind, Except.bind] at h
+    | ok d =>
+      cases hr : mapDurations r with
+      | error e => simp [hd, hr, bind, Except.bind] at h
+      | ok r' =>
+        intro kv hkv
+        rcases List.mem_cons.mp hkv with rfl | hkv'
+        · exact ⟨d, hd⟩
+        · exact ih r' hr kv hkv'
+
+/-- **constraint_duration (ksk_policy).**  If any entry of the `ksk_policy` section other than `ttl`
+    and `signers_name` is something the repository's duration parser refuses, the configuration is
+    not loaded — whatever else the tree contains. -/
+theorem unparsable_ksk_duration_rejected (env : Env) (kvs pk : List (CVal × CVal)) (k : String) (v : CVal)
+    (e : Fail)
+    (hkp : CVal.lookupStr kvs "ksk_policy" = some (.map pk))
+    (hnosp : CVal.lookupStr pk "signature_policy" = none)
+    (hk : (CVal.str k, v) ∈ pk) (hk1 : k ≠ "ttl") (hk2 : k ≠ "signers_name")
+    (hbad : durationToTimedelta v = .error e) :
+    ∀ r, fromDict env (.map kvs) ≠ .ok r := by
+  intro r h
+  obtain ⟨kvs', ht, _, _⟩ := fromDict_validated env _ r h
+  unfold transformConfig at ht
+  simp only [topLevelDict, bind, Except.bind, pure, Except.pure] at ht
+  cases hp : transformKskPolicy kvs with
+  | error e' => simp [hp] at ht
+  | ok k1 =>
+    unfold transformKskPolicy at hp
+    simp only [hkp, hnosp, Option.isSome_none, Bool.false_eq_true, if_false] at hp
+    cases hm : mapDurations (delKey (delKey pk "ttl") "signers_name") with
+    | error e' => simp [hm, bind, Except.bind] at hp
+    | ok sp =>
+      obtain ⟨d, hd⟩ := mapDurations_ok _ sp hm (CVal.str k, v)
+        (mem_delKey_ne _ _ _ _ (mem_delKey_ne _ _ _ _ hk hk1) hk2)
+      rw [hbad] at hd
+      cases hd
+
+/-! ## 3. Defaults -/
+
+/-- the documented defaults of the request policy, written out from the property text and the
+    comments of config/ksrsigner.yaml: every check on; 9 bundles with 2,1,1,1,1,1,1,1,2 keys;
+    3 distinct keys; RSASHA256 / 2048 / 65537; 79–81-day cycle; 9–11-day interval; 180-day horizon;
+    domain "."; unsupported ECDSA / EdDSA off -/
+def documentedRequestPolicy : RequestPolicy :=
+  { acceptableDomains := ["."], numBundles := 9,
+    validateSignatures := true, keysMatchZskPolicy := true, rsaExponentMatchZskPolicy := true,
+    enableUnsupportedEcdsa := false, enableUnsupportedEdwardsDsa := false,
+    checkCycleLength := true,
+    minCycleInceptionLength := 79 * usPerDay, maxCycleInceptionLength := 81 * usPerDay,
+    minBundleInterval := 9 * usPerDay, maxBundleInterval := 11 * usPerDay,
+    checkBundleOverlap := true, signatureAlgorithmsMatchZskPolicy := true,
+    approvedAlgorithms := [some algRSASHA256], rsaApprovedExponents := [65537], rsaApprovedKeySizes := [2048],
+    signatureValidityMatchZskPolicy := true, checkKeysMatchKskOperatorPolicy := true,
+    numKeysPerBundle := [2, 1, 1, 1, 1, 1, 1, 1, 2], numDifferentKeysInAllBundles := 3,
+    dnsTtl := 0, signatureCheckExpireHorizon := true, signatureHorizonDays := 180,
+    checkBundleIntervals := true, checkChainKeys := true, checkChainKeysInHsm := true,
+    checkChainOverlap := true, checkKeysPublishSafety := true, checkKeysRetireSafety := true }
+
+/-- **defaults_documented.**  The defaults regenerated from the code — of the `RequestPolicy` model,
+    of a configuration whose `request_policy` section is omitted altogether, of `ResponsePolicy`
+    (9 / true), of `ksk_policy` (TTL 172800, signer "."; all six durations zero), and the table
+    `KskmGen.requestPolicyDefaults` the other properties use — are the documented ones. -/
+theorem defaults_documented :
+    (defaultInstance KskmGen.configSchema "RequestPolicy").bind (toRequestPolicy KskmGen.algorithmDNSSEC)
+      = some documentedRequestPolicy ∧
+    (schemaDefault KskmGen.configSchema "KSKMConfig" "request_policy").bind (toRequestPolicy KskmGen.algorithmDNSSEC)
+      = some documentedRequestPolicy ∧
+    KskmGen.requestPolicyDefaults = documentedRequestPolicy ∧
+    (defaultInstance KskmGen.configSchema "ResponsePolicy").bind toResponsePolicy
+      = some { numBundles := 9, validateSignatures := true } ∧
+    (schemaDefault KskmGen.configSchema "KSKMConfig" "response_policy").bind toResponsePolicy
+      = some { numBundles := 9, validateSignatures := true } ∧
+    KskmGen.responsePolicyDefaults = { numBundles := 9, validateSignatures := true } ∧
+    (schemaDefault KskmGen.configSchema "KSKPolicy" "ttl").bind CVal.getInt? = some 172800 ∧
+    (schemaDefault KskmGen.configSchema "KSKPolicy" "signers_name").bind CVal.getStr? = some "." ∧
+    ((schemaDefault KskmGen.configSchema "KSKMConfig" "ksk_policy").bind (·.get? "ttl")).bind CVal.getInt? = some 172800 ∧
+    ((schemaDefault KskmGen.configSchema "KSKMConfig" "ksk_policy").bind (·.get? "signers_name")).bind CVal.getStr?
+      = some "." ∧
+    (["publish_safety", "retire_safety", "max_signature_validity", "min_signature_validity",
+      "max_validity_overlap", "min_validity_overlap"].all fun n =>
+        (schemaDefault KskmGen.configSchema "SignaturePolicy" n).bind CVal.getTd? == some 0) = true := by
+  decide +kernel
+
+/-- the empty configuration loads, and loads as the defaults (non-vacuity of the default theorems:
+    this is the path an omitted section takes) -/
+example : ((fromDict (realEnv fun _ => false) (.map [])).toOption.bind (·.get? "request_policy")).bind
+    (toRequestPolicy KskmGen.algorithmDNSSEC) = some documentedRequestPolicy := by decide +kernel
+
+/-- the field validators the model has built in are the ones declared in the code now -/
+theorem before_validators_pinned :
+    KskmGen.configBeforeValidators =
+      [("KSKKey", "algorithm_by_name", ["algorithm"]), ("SchemaAction", "turn_into_list", ["*"])] := by decide
+
+/-! ## 4. One flag, one check -/
+
+/-- which rule function reads which boolean option, by `ast` over the rule files: every whole-check
+    flag is consulted by exactly one function — the one documented for it -/
+theorem flag_readers_documented :
+    KskmGen.flagReaders = [
+      ("validate_signatures", ["verify_bundles.check_proof_of_possession"]),
+      ("keys_match_zsk_policy", ["verify_bundles.check_keys_match_zsk_policy"]),
+      ("rsa_exponent_match_zsk_policy", ["verify_bundles.check_keys_match_zsk_policy"]),
+      ("enable_unsupported_ecdsa", ["verify_policy.check_zsk_policy_algorithm"]),
+      ("enable_unsupported_edwards_dsa", ["verify_policy.check_zsk_policy_algorithm"]),
+      ("check_cycle_length", ["verify_bundles.check_cycle_durations"]),
+      ("check_bundle_overlap", ["verify_policy.check_bundle_overlaps"]),
+      ("signature_algorithms_match_zsk_policy", ["verify_policy.check_zsk_policy_algorithm"]),
+      ("signature_validity_match_zsk_policy", ["verify_policy.check_signature_validity"]),
+      ("check_keys_match_ksk_operator_policy", ["verify_policy.check_keys_in_bundles"]),
+      ("signature_check_expire_horizon", ["verify_policy.check_signature_horizon"]),
+      ("check_bundle_intervals", ["verify_policy.check_bundle_intervals"]),
+      ("check_chain_keys", ["verify_chain.check_chain_keys"]),
+      ("check_chain_keys_in_hsm", ["verify_chain.check_last_skr_key_present"]),
+      ("check_chain_overlap", ["verify_chain.check_chain_overlap"]),
+      ("check_keys_publish_safety", ["policy.check_publish_safety"]),
+      ("check_keys_retire_safety", ["policy.check_retire_safety"])] := by decide
+
+/-- **flag_independence.**  For every request / previous SKR / new SKR / token / clock, every policy
+    and each of the fourteen whole-check flags `f`: the set of failing checks under the policy with
+    only `f` set to false is the set of failing checks under the policy itself minus the check `f`
+    guards — that check no longer fails, and no other check changes its verdict (not even the error
+    it reports: `runCheck_setOff_other` is an equality of results). -/
+theorem flag_independence (ctx : Ctx) (pol : RequestPolicy) (f : Flag) (k : Check) :
+    runCheck ctx (f.setOff pol) k ≠ .ok () ↔ (runCheck ctx pol k ≠ .ok () ∧ k ≠ f.guards) := by
+  by_cases hk : k = f.guards
+  · subst hk
+    simp [runCheck_setOff_own]
+  · rw [runCheck_setOff_other ctx pol f k hk]
+    simp [hk]
+
+/-- the three composite validations are exactly the conjunction of their checks (so a check's
+    verdict — in particular a switched-off check's `ok` — cannot hide another's rejection) -/
+theorem validateRequest_iff_checks (ctx : Ctx) (pol : RequestPolicy) :
+    validateRequest ctx.verify ctx.now ctx.req pol = .ok () ↔ ∀ k ∈ requestChecks, runCheck ctx pol k = .ok () := by
+  rw [C05.validateRequest_ok_iff, checkZskPolicyAlgorithm_split, seq_ok_iff]
+  simp only [requestChecks, List.mem_cons, List.not_mem_nil, or_false, forall_eq_or_imp, forall_eq, runCheck]
+  constructor
+  · rintro ⟨h1, h2, h3, h4, h5, h6, h7, ⟨h8, h9⟩, h10, h11, h12, h13⟩
+    exact ⟨h1, h2, h3, h4, h5, h6, h7, h8, h9, h10, h11, h12, h13⟩
+  · rintro ⟨h1, h2, h3, h4, h5, h6, h7, h8, h9, h10, h11, h12, h13⟩
+    exact ⟨h1, h2, h3, h4, h5, h6, h7, ⟨h8, h9⟩, h10, h11, h12, h13⟩
+
+theorem checkSkrAndKsr_iff_checks (ctx : Ctx) (pol : RequestPolicy) :
+    checkSkrAndKsr ctx.req ctx.last pol ctx.tok = .ok () ↔ ∀ k ∈ chainChecks, runCheck ctx pol k = .ok () := by
+  unfold checkSkrAndKsr
+  simp only [seq_ok_iff, chainChecks, List.mem_cons, List.not_mem_nil, or_false, forall_eq_or_imp, forall_eq,
+    runCheck]
+
+theorem checkLastSkrAndNewSkr_iff_checks (ctx : Ctx) (pol : RequestPolicy) :
+    checkLastSkrAndNewSkr ctx.last ctx.new pol = .ok () ↔ ∀ k ∈ safetyChecks, runCheck ctx pol k = .ok () := by
+  unfold checkLastSkrAndNewSkr
+  simp only [seq_ok_iff, safetyChecks, List.mem_cons, List.not_mem_nil, or_false, forall_eq_or_imp, forall_eq,
+    runCheck]
+
+/-- consequently: with one flag off, `validate_request` accepts exactly when every check other than
+    the one that flag guards accepts under the original policy -/
+theorem flag_off_validateRequest (ctx : Ctx) (pol : RequestPolicy) (f : Flag) :
+    validateRequest ctx.verify ctx.now ctx.req (f.setOff pol) = .ok () ↔
+      ∀ k ∈ requestChecks, k ≠ f.guards → runCheck ctx pol k = .ok () := by
+  rw [validateRequest_iff_checks]
+  constructor
+  · intro h k hk hne
+    rw [← runCheck_setOff_other ctx pol f k hne]
+    exact h k hk
+  · intro h k hk
+    by_cases hne : k = f.guards
+    · subst hne; exact runCheck_setOff_own ctx pol f
+    · rw [runCheck_setOff_other ctx pol f k hne]
+      exact h k hk hne
+
+/-- the same for the chain rules and for the publish / retire safety rules -/
+theorem flag_off_chain_and_safety (ctx : Ctx) (pol : RequestPolicy) (f : Flag) :
+    (checkSkrAndKsr ctx.req ctx.last (f.setOff pol) ctx.tok = .ok () ↔
+      ∀ k ∈ chainChecks, k ≠ f.guards → runCheck ctx pol k = .ok ()) ∧
+    (checkLastSkrAndNewSkr ctx.last ctx.new (f.setOff pol) = .ok () ↔
+      ∀ k ∈ safetyChecks, k ≠ f.guards → runCheck ctx pol k = .ok ()) := by
+  rw [checkSkrAndKsr_iff_checks, checkLastSkrAndNewSkr_iff_checks]
+  constructor <;> constructor
+  all_goals first
+    | (intro h k hk hne
+       rw [← runCheck_setOff_other ctx pol f k hne]
+       exact h k hk)
+    | (intro h k hk
+       by_cases hne : k = f.guards
+       · subst hne; exact runCheck_setOff_own ctx pol f
+       · rw [runCheck_setOff_other ctx pol f k hne]
+         exact h k hk hne)
+
+/-- the honest part: the deprecated / unsupported-algorithm test of `check_zsk_policy_algorithm` is
+    NOT switchable — no flag changes it, and with `signature_algorithms_match_zsk_policy` off a KSR
+    declaring RSAMD5 is still refused -/
+theorem unguarded_algorithm_check_not_switchable (ctx : Ctx) (pol : RequestPolicy) (f : Flag) :
+    runCheck ctx (f.setOff pol) .zskAlgBasic = runCheck ctx pol .zskAlgBasic :=
+  runCheck_setOff_other ctx pol f .zskAlgBasic (by cases f <;> decide)
+
+example : checkZskPolicyAlgorithm
+    { id := "r", serial := 1, domain := ".", bundles := [],
+      zskPolicy := { algorithms := [{ kind := .rsa, bits := 2048, algorithm := 1, exponent := some 65537 }] } }
+    (Flag.setOff documentedRequestPolicy .signatureAlgorithmsMatchZskPolicy) = violation .policyAlg := by
+  decide +kernel
+
+/-! ## 5. Exit status -/
+
+def exitCodes : ExitCodes := { success := 0, interrupt := 1, config := 2, fatal := 3 }
+
+theorem exit_codes_table : exitCodesOf KskmGen.exitCodes = some exitCodes := by decide
+
+/-- the full property: whenever the loader reports a configuration OR a schema-validation error,
+    the signer exits with the dedicated configuration status, never 0 -/
+def ConfigErrorStatus (validationCaught : Bool) : Prop :=
+  ∀ o, (o = LoaderOutcome.configurationError ∨ o = LoaderOutcome.validationError) → ∀ restOk,
+    mainStatus exitCodes validationCaught o restOk = exitCodes.config ∧
+    mainStatus exitCodes validationCaught o restOk ≠ exitCodes.success
+
+/-- what still holds when `ValidationError` is not caught: the ConfigurationError class has the
+    dedicated status, and a schema-validation error exits non-zero — with the status CPython gives
+    an uncaught exception, which is also the "interrupt" status -/
+def ConfigErrorStatusPartial (validationCaught : Bool) : Prop :=
+  (∀ restOk, mainStatus exitCodes validationCaught .configurationError restOk = exitCodes.config) ∧
+  (∀ restOk, mainStatus exitCodes validationCaught .validationError restOk ≠ exitCodes.success) ∧
+  (∀ restOk, mainStatus exitCodes validationCaught .validationError restOk = exitCodes.interrupt)
+
+/-- **config_error_status**, repaired behaviour (`main` catches `pydantic.ValidationError`). -/
+theorem config_error_status_fixed : ConfigErrorStatus true := by
+  intro o ho restOk
+  rcases ho with rfl | rfl <;> simp [mainStatus, exitCodes]
+
+/-- **config_error_status** is FALSE of the pinned behaviour (F3): the witness is the
+    schema-validation outcome, which exits 1. -/
+theorem config_error_status_pinned : ¬ ConfigErrorStatus false ∧ ConfigErrorStatusPartial false := by
+  constructor
+  · intro h
+    have := (h .validationError (Or.inr rfl) false).1
+    simp [mainStatus, exitCodes, uncaughtExceptionStatus] at this
+  · refine ⟨?_, ?_, ?_⟩ <;> intro restOk <;> simp [mainStatus, exitCodes, uncaughtExceptionStatus]
+
+/-- the switch as observed on the code now -/
+def validationCaught : Bool := validationCaughtOf KskmGen.exitStatusObserved KskmGen.exitCodes
+
+/-- **config_error_status**, for the value of the switch tabulated from the code on this run:
+    repaired ⇒ the full property; pinned ⇒ its negation (with the witness) and the partial one. -/
+theorem config_error_status :
+    (validationCaught = true → ConfigErrorStatus validationCaught) ∧
+    (validationCaught = false → ¬ ConfigErrorStatus validationCaught ∧ ConfigErrorStatusPartial validationCaught) := by
+  constructor
+  · intro h; rw [h]; exact config_error_status_fixed
+  · intro h; rw [h]; exact config_error_status_pinned
+
+/-- **nonzero_on_any_loader_failure.**  Whatever the loader reports other than a configuration
+    (missing file, configuration error, validation error, any other exception, interrupt), and
+    whichever way the switch stands, the exit status is not 0. -/
+theorem nonzero_on_any_loader_failure (caught : Bool) (o : LoaderOutcome) (restOk : Bool)
+    (h : o ≠ .loaded) : mainStatus exitCodes caught o restOk ≠ 0 := by
+  cases o <;> cases caught <;> simp_all [mainStatus, exitCodes, uncaughtExceptionStatus]
+
+/-- and a rejected configuration never exits 0: `fromDict` failing (any error class the model
+    judges) gives a non-zero status -/
+theorem rejected_configuration_exits_nonzero (env : Env) (c : CVal) (caught restOk : Bool) (o : LoaderOutcome)
+    (hrej : ∀ r, fromDict env c ≠ .ok r) (ho : outcomeOf (fromDict env c) = some o) :
+    mainStatus exitCodes caught o restOk ≠ 0 := by
+  apply nonzero_on_any_loader_failure
+  intro hl
+  subst hl
+  cases hf : fromDict env c with
+  | ok r => exact hrej r hf
+  | error e =>
+    rw [hf] at ho
+    cases e with
+    | violation r => simp [outcomeOf] at ho
+    | unsupported => simp [outcomeOf] at ho
+    | error k => cases k <;> simp [outcomeOf] at ho
+
+/-- the model's `main` reproduces the four statuses observed by running the real one -/
+theorem observed_statuses_explained :
+    List.lookup "configuration_error" KskmGen.exitStatusObserved
+      = some (mainStatus exitCodes validationCaught .configurationError false) ∧
+    List.lookup "validation_error" KskmGen.exitStatusObserved
+      = some (mainStatus exitCodes validationCaught .validationError false) ∧
+    List.lookup "missing_file" KskmGen.exitStatusObserved
+      = some (mainStatus exitCodes validationCaught .fileNotFound false) ∧
+    List.lookup "malformed_yaml" KskmGen.exitStatusObserved
+      = some (mainStatus exitCodes validationCaught .otherException false) := by decide
 
 end Kskm.C16
